@@ -5,7 +5,8 @@ import RP.Model.Discount
 
 `seq <t0> <n> <len> <prior regret bits, prior policy bits>×n <regret bits, policy bits>×n×len`
       `len` epochs (`add_regret`, `add_policy`, `next`) at one information set with `n` actions, the
-      counter starting at `t0`; answer: `<counter> <walker>` then per action `~regret ~policy ~weight`
+      counter starting at `t0`; answer: `<counter> <walker>` then per action `~regret ~policy ~weight ~policy` (the last one
+      is the stored policy again, as read through `Profile::policy`)
 `dpolicy <t>`          `Discount::policy(t)`
 `dregret <t> <bits>`   the factor `add_regret` applies at counter `t` to an added regret
 `phase <t>`            `Phase::from(t)` as 0/1/2
@@ -25,7 +26,7 @@ def seqOp (t0 n len : Nat) (xs : Array Nat) : String :=
   let pols := stored.map (·.2)
   let t := counterAfter t0 len
   joinSp ([toString t, toString (walker t)] ++
-    stored.map fun (r, p) => s!"~{f32ToDec r} ~{f32ToDec p} ~{f32ToDec (weight f32Ops pols p)}")
+    stored.map fun (r, p) => s!"~{f32ToDec r} ~{f32ToDec p} ~{f32ToDec (weight f32Ops pols p)} ~{f32ToDec p}")
 
 def phaseCode : Phase → Nat
   | .discount => 0
